@@ -9,7 +9,7 @@ from twosigma.memento.storage_filesystem import OnDiskPartition
 from vp.engine import assume, check, cover, note, obligation, pick
 from vp.memenv import Program, Sandbox, concrete_region
 
-KEYS = ["a", "b", "c"]
+KEYS = ["a", "b/x", "\u00e9:# "]  # plain, path-like, non-ASCII with the separators of qualified names and content keys
 STORES = ["fs", "fs+cache:1", "memory", "fs+cache:0.0005"]
 PROVENANCE = ["fresh", "disk", "cache"]
 STAGING = ["InMemoryPartition", "OnDiskPartition", "InMemoryPartition(defaultdict)"]
@@ -18,9 +18,9 @@ STAGING = ["InMemoryPartition", "OnDiskPartition", "InMemoryPartition(defaultdic
 
 
 def value_for(level, key):
-    if level == 1 and key == "b":
+    if level == 1 and key == KEYS[1]:
         return None
-    if level == 0 and key == "c":
+    if level == 0 and key == KEYS[2]:
         return pd.DataFrame({"k": [1, 2], "lvl": [level, level]})
     return "%s@%d" % (key, level)
 
@@ -214,7 +214,7 @@ def passthrough(m0: int, m1: int, pv0: int, tp: int, K: int, staging: int, store
     "C17.chains",
     covers=("chain-0", "chain-1", "parent-fresh", "parent-disk", "parent-cache", "own-key-wins", "parent-only-key", "ondisk-staging", "empty-level"),
     split={"store": [0, 1, 2], "staging": [0, 1, 2], "K": [0, 1]},
-    bounds="key alphabet {a,b,c}; merge chains of length K = 0..1 (thorough 2); every presence mask per level (8 each); parent provenance "
+    bounds="key alphabet {'a', 'b/x', 'é:# '}; merge chains of length K = 0..1 (thorough 2); every presence mask per level (8 each); parent provenance "
            "{computed inside the child = fresh in-memory object, read back from disk, served from the memory cache}; staging partition "
            "{InMemoryPartition, OnDiskPartition, InMemoryPartition over a defaultdict}; values incl. None and a DataFrame; stores {fs, fs+cache, "
            "memory}",
@@ -255,7 +255,7 @@ def chains(m0: int, m1: int, pv0: int, K: int, staging: int, store: int):
     bounds="chains of length 2: all 8^3 presence masks x provenance of both parents x staging (quick: in-memory and on-disk) x {fs, fs+cache 1 MiB; "
            "thorough also fs+cache 512 B}",
     variables="choice: masks, provenances",
-    budget_s={"thorough": 1500},
+    budget_s={"quick": 400, "thorough": 1500},
     choice_vars=5,
 )
 def chains_k2(m0: int, m1: int, m2: int, pv0: int, pv1: int, staging: int, store: int):
